@@ -382,6 +382,12 @@ class R1(object):
             return ("e", ("flush", kind), t)
         if fm == "raiseB":
             return ("e", ("flushB", kind), t)
+        if fm in ("fcancel", "fcancelraise"):
+            # the flush body fails the whole batch with the public cancel(error) before serving anything, then returns
+            # (or raises something else, which must be ignored: the batch is already computed)
+            return ("e", ("flushcancel", kind), t)
+        if fm == "setfcancel" and mode == "unset":
+            return ("e", ("flushcancel", kind), t)
         if mode == "ok":
             return ("v", ("i", lid), t)
         if mode == "err":
